@@ -263,19 +263,15 @@ def replay(ctx, rep):
     if 'closed-before-connect' in rep.get('key', ''):
         cfgv = rep.get('case', {}).get('cfg') or []
         c2 = type(ctx)(ctx.prop_id, 'quick', 0)
-        saved = (tg.next_verbose, tg.next_platform)
-        tg.next_verbose = lambda: (cfgv[4] if len(cfgv) > 4 else 0)
-        tg.next_platform = lambda: (cfgv[5] if len(cfgv) > 5 else 0)
-        try:
+        with tg.pinned(cfgv):
             tg.close_before_connect_hangs(c2, c2.rng, 'C02', 0)
-        finally:
-            tg.next_verbose, tg.next_platform = saved
         hit = [v for v in c2.violations if v['key'] == rep.get('key')]
         return bool(hit), (str(hit[0]['observed']) if hit else 'the flow is torn down on both ends and the application is told')
     if ':reuse:' in rep.get('key', ''):
         c2 = type(ctx)(ctx.prop_id, 'quick', 0)
-        for maxchan in (1, 2):
-            tg.reap_after_reuse(c2, c2.rng, 'C02', maxchan)
+        with tg.pinned(rep.get('case', {}).get('cfg')):
+            for maxchan in (1, 2):
+                tg.reap_after_reuse(c2, c2.rng, 'C02', maxchan)
         hit = [v for v in c2.violations if v['key'] == rep.get('key')]
         return bool(hit), (str(hit[0]['observed']) if hit else 'the new flow keeps its identifier and its bytes')
     if ':work:' in rep.get('key', ''):
@@ -285,6 +281,10 @@ def replay(ctx, rep):
         common_verdict = tg.replay_common(s)
         if common_verdict:
             return common_verdict
+        if 'flow-not-torn-down' in rep.get('key', ''):
+            return tg.replay_torn_down(s, rep['case'])
+        if 'teardown' in rep.get('key', '') or 'stuck' in rep.get('key', ''):
+            tg.continue_fairly(s, rep['case'].get('script', []))
         class Sc:
             pass
         sc = Sc()
